@@ -44,6 +44,7 @@ def run_unit(A, unit, rep, tier, readers_only=False, rule="C13"):
     eps = A.entry_points(cls)
     names = A.readers(cls) if readers_only else sorted(eps)
     n_sites = 0
+    sub = rule + ".a" if rule == "C13" else rule
     for m in names:
         f = eps[m]
         for rho in ("root", "nested"):
@@ -58,9 +59,9 @@ def run_unit(A, unit, rep, tier, readers_only=False, rule="C13"):
                     n_sites += 1
                     states = st.get(n.id, [()])
                     if all("buf" in held_ids(s) for s in states):
-                        rep.ok(rule + ".a")
+                        rep.ok(sub)
                         continue
-                    rep.fail(rule + ".a", norm_key(rule + ".a", n.func, n.stmt, n["name"]),
+                    rep.fail(sub, norm_key(sub, n.func, n.stmt, n["name"]),
                              f"class-wide buffer state `{n['name']}` is accessed by `{n.stmt}` in {n.func} without the buffer lock on some path; "
                              f"a concurrent buffered operation can interleave (lost registration / torn counter / stale entry)",
                              g.witness(g.path(g.entry, [n.id])), g.label)
